@@ -301,7 +301,9 @@ def gen_ext(rng, spec):
     if rng.random() < 0.3:
         refs = dag_refs(spec)
         cands = sorted(p for p, rs in refs.items()
-                       if rs <= {'source_file', 'header_file', 'generic_file'})
+                       if rs <= {'source_file', 'header_file', 'generic_file'} and
+                       any('%s(%r)' % (fn, p) in dag.render(spec)['build.bfg']
+                           for fn in ('source_file', 'header_file', 'generic_file')))
         catchall = any(i['k'] == 'find' and i['patterns'] == ['*.c'] for i in ext['items'])
         cands = [p for p in cands if not (catchall and '/' not in p and p.endswith('.c'))]
         if cands:
@@ -338,12 +340,21 @@ def dag_refs(spec):
                 if k == 'hdrs':
                     for h in x:
                         add(h, 'header_file')
+                elif k == 'hdr' and isinstance(x, str):
+                    add(x, 'header_file')          # precompiled_header(file=header_file(..))
+                elif k == 'pch_str':
+                    if x:
+                        add(x, 'string:pch')
                 elif k == 'srcs':
                     for s in x:
                         add(s, 'string:files')
                 else:
                     walk(x)
     walk(spec['nodes'])
+    # whatever else the dag model says a step reads (features added to dag.py later)
+    for f in dag.Model(spec).source_files():
+        if f[2:] not in refs:
+            add(f[2:], 'dag:step-input')
     return refs
 
 
